@@ -1029,6 +1029,34 @@ func (s *seq) doSave(start uint64, gs []group, withHS, withSnap int) {
 	}
 }
 
+// oversizeAtCurrentStart: a conflicting save at the first index of the current file (slot 0: the
+// conflict handling empties the file) whose first entry does not fit an empty file.  Before fix
+// 2e7189b the empty file was rotated into the list of rotated files and hid the earlier ones.
+func (s *seq) oversizeAtCurrentStart() {
+	parts := strings.Split(listFiles(filepath.Join(s.dir, "__raft_entries__")), ",")
+	var first uint64
+	for _, p := range parts { // fid:size:first — the current file is the one with the largest first index
+		f := strings.Split(p, ":")
+		if len(f) == 3 {
+			if x, err := strconv.ParseUint(f[2], 10, 64); err == nil && x > first {
+				first = x
+			}
+		}
+	}
+	if len(parts) < 2 || first <= s.commit || first > s.last {
+		return
+	}
+	sz := maxSize - dataOff - 4 + 1 + s.r.Intn(3)
+	s.c.Count("save:oversize-at-slot-0-of-the-current-file")
+	t := maxU(s.curTerm, s.terms[first]) + 1
+	s.doSave(first, []group{{n: 1, term: t, typ: 0, pl: payload{run: true, n: sz, b: byte(1 + s.r.Intn(250))}}}, 1, 0)
+	s.qTerm(s.first)
+	if first > s.first+3 {
+		s.qTerm(first - 2)
+		s.qEnts(first-3, first+1, 1<<40)
+	}
+}
+
 // fileOf: which file (counted from the start of the log) an index lives in, for statistics
 // only; exact only while no conflict moved the boundaries.
 func (s *seq) fileOf(i uint64) uint64 {
@@ -1499,6 +1527,9 @@ func runSeq(c *hx.Ctx, r *hx.Rng, id int, root string, profile int, rw int) {
 		s.sizeSave()
 		s.oversize = false
 		s.queries(3)
+		if s.r.Chance(60) {
+			s.oversizeAtCurrentStart()
+		}
 		s.doReopen()
 		if !s.dead {
 			s.qFiles()
@@ -1569,7 +1600,10 @@ func Run(c *hx.Ctx) error {
 	c.Stats.Rule = "generated op sequences on a scratch directory against the real RaftDiskStorage, the Lean model and etcd's raft.MemoryStorage: " +
 		"saves (append / conflicting, batches sized to reach, hit and pass the 30000-slot table boundary, payloads of several MiB across the 32 MiB cap, term changes, hard state, snapshot), " +
 		"CreateSnapshot, DeleteBefore, reopen (Close+Init, or Init on a copy of the directory taken without Close), each followed by FirstIndex/LastIndex/Term/Entries/Snapshot/InitialState " +
-		"queries at boundary arguments and the directory listing; a sequence is non-trivial when a save conflicted with existing indexes or crossed a file boundary; distinct by the op lines"
+		"queries at boundary arguments and the directory listing; both file wrappers (entry-file-rw-type 2 and 1); for armed save / CreateSnapshot / DeleteBefore operations " +
+		"the directory after every file-system mutation and after prefixes of the bytes of every write (fileops IO observer), a real store opened on each image: its answers compared with the model's " +
+		"recover on the same crash point, the mutation list compared with the model's, the recovered store judged against the crash contract; " +
+		"a sequence is non-trivial when a save conflicted with existing indexes or crossed a file boundary; distinct by the op lines"
 	only := -1
 	if v := c.Arg("only", ""); v != "" {
 		only, _ = strconv.Atoi(v)
